@@ -60,12 +60,21 @@ impl Sub for SaltHistory {
         let per_thread = (c.signs / threads.max(1)).max(1);
         // one record per sign call: (thread, key, message index, signature bytes)
         type Rec = (usize, usize, usize, Vec<u8>);
+        // Which key OBJECT a thread signs with: the shared one (by reference), its own clone of it, or
+        // its own copy decoded from the key's bytes. Clones and copies are taken when the thread
+        // starts, i.e. before any signing in the first wave and after thousands of signatures in
+        // the second: state carried inside a key object must not make two objects replay salts.
         let run_wave = |first: usize, count: usize| -> Vec<Rec> {
             std::thread::scope(|sc| {
                 let hs: Vec<_> = (first..first + count)
                     .map(|t| {
                         let keys = &keys;
                         sc.spawn(move || {
+                            let own: Vec<api::Sk> = match t % 3 {
+                                1 => keys.iter().map(|k| k.sk.clone()).collect(),
+                                2 => keys.iter().map(|k| api::Sk::from_bytes(k.n, &k.sk_bytes).expect("own secret key bytes decode")).collect(),
+                                _ => vec![],
+                            };
                             let mut out: Vec<Rec> = Vec::with_capacity(per_thread);
                             for i in 0..per_thread {
                                 let r = mix(c.plan ^ ((t as u64) << 40) ^ i as u64);
@@ -74,7 +83,8 @@ impl Sub for SaltHistory {
                                 let k = k.min(keys.len() - 1);
                                 let m = (r >> 24) as usize % c.messages_per_key;
                                 let msg = message(c.plan, k, m);
-                                out.push((t, k, m, api::sign(&msg, &keys[k].sk).to_bytes()));
+                                let sk = if own.is_empty() { &keys[k].sk } else { &own[k] };
+                                out.push((t, k, m, api::sign(&msg, sk).to_bytes()));
                             }
                             out
                         })
@@ -182,7 +192,7 @@ fn message(plan: u64, k: usize, m: usize) -> Vec<u8> {
 }
 
 const META: Meta = Meta {
-    rule: "proptest histories of sign calls with the real entropy path (no scripted randomness): 1-4 Falcon-512 and 1-2 Falcon-1024 keys, 1-4 messages per key (so (key, message) pairs repeat thousands of times; message no. 1 of every key is a large message of 4100-70000 bytes whose length is shared by all keys of the history), 6-12 threads started at the beginning and 4-12 fresh threads started mid-history, and child processes (the harness re-executes itself) each signing one fixed (key, message) four times. Invariants over the whole history: all salts pairwise distinct (which includes: same (key, message) signed twice => different salts; first salts of fresh threads and fresh processes distinct), all signature byte strings distinct, every one of the 320 salt bit positions takes both values, every salt byte position passes a chi-square test against the uniform distribution on 256 values at p = 1e-12. Non-trivial = a history with a repeated (key, message) pair and more than one thread or a child process; the count adds each repeated pair, fresh thread and child process of such a history.",
+    rule: "proptest histories of sign calls with the real entropy path (no scripted randomness): 1-4 Falcon-512 and 1-2 Falcon-1024 keys, 1-4 messages per key (so (key, message) pairs repeat thousands of times; message no. 1 of every key is a large message of 4100-70000 bytes whose length is shared by all keys of the history), 6-12 threads started at the beginning and 6-12 fresh threads started mid-history (a third of the threads sign with the shared key object, a third with their own clone of it, a third with their own copy decoded from its bytes; clones and copies of the second wave are taken after thousands of signatures), and child processes (the harness re-executes itself) each signing one fixed (key, message) four times. Invariants over the whole history: all salts pairwise distinct (which includes: same (key, message) signed twice => different salts; first salts of fresh threads and fresh processes distinct), all signature byte strings distinct, every one of the 320 salt bit positions takes both values, every salt byte position passes a chi-square test against the uniform distribution on 256 values at p = 1e-12. Non-trivial = a history with a repeated (key, message) pair and more than one thread or a child process; the count adds each repeated pair, fresh thread and child process of such a history.",
     assumptions: &[
         "'drawn from the OS-seeded generator' is observable only through these consequences: a generator with >= 2^64 states seeded badly but differently per process would pass",
         "false alarms: a collision of honest 320-bit salts has probability < 1e-80; the 40 chi-square tests together < 4e-11; a constant bit among >= 2000 honest salts < 1e-599",
